@@ -551,6 +551,14 @@ func (a *A) finish(p *Prop, verifDir string, seed int64, start time.Time, extraI
 	var lines []string
 	viol, knownHit, discharged, nontriv := 0, 0, 0, 0
 	distinct := map[string]bool{}
+	// findings of the audit (reproduced defects of the property that no structural rule decides): listed
+	// by their failing input, printed on every run; they suppress nothing
+	for _, k := range known {
+		if k.Property == p.ID && k.Status == "open" && k.Rule == "audit" {
+			knownHit++
+			lines = append(lines, fmt.Sprintf("KNOWN-FINDING: property=%s audit %s %s", p.ID, k.Construct, k.What))
+		}
+	}
 	for _, o := range a.obs {
 		switch o.Verdict {
 		case Discharged:
